@@ -117,7 +117,9 @@ func VerifH_C30_acquire() {
 	waits := 0
 	fitted := vFits(held, w, max) // did the request fit at some check?
 	cur := held
+	terminated := false
 	sym.OnYield(func(string) bool {
+		sym.Assert(!terminated || (w.Num == 0 && w.Size == 0), "a blocked non-empty request returns as soon as the semaphore is terminated")
 		waits++
 		if waits > 2 {
 			sym.Assume(false) // bound: at most two waits are explored
@@ -135,6 +137,7 @@ func VerifH_C30_acquire() {
 			sym.SetNow(t0 + int64(waits)*60_000_000)
 			s.Terminate()
 			max = dag.Metric{}
+			terminated = true
 			return true
 		default: // nobody ever signals again; time passes beyond the deadline
 			sym.SetNow(t0 + int64(waits)*60_000_000 + timeout + 1)
